@@ -231,6 +231,10 @@ def scan_filter_cases():
                             [b'dbsize'], [b'keys', b'*'], [b'select', b'1'], [b'scan', b'0', b'count', b'100'], [b'scan', b'0', b'match', b'k*', b'type', b'list']])
         yield Always(mk + other + [[b'scan', b'0'], [b'flushdb'], [b'scan', b'0'], [b'set', b'n1', b'1'], [b'scan', b'0'], [b'del', b'n1'], [b'scan', b'0'], [b'expire', b'ka', b'1'],
                             ('adv', 2000), [b'scan', b'0', b'count', b'100'], [b'rename', b'kb', b'kbb'], [b'scan', b'0', b'count', b'100'], [b'move', b'kl', b'2'], [b'scan', b'0', b'count', b'100']])
+    for cnt in (b'9223372036854775807', b'9223372036854775806', b'4611686018427387904'):
+        for cur in (b'0', b'1', b'3'):
+            yield Always(mk + [[b'scan', cur, b'match', b'*', b'count', cnt], [b'scan', cur, b'type', b'string', b'count', cnt], [b'scan', cur, b'count', cnt],
+                               [b'sscan', b'ks', cur, b'match', b'*', b'count', cnt], [b'hscan', b'kh', cur, b'match', b'*', b'count', cnt], [b'zscan', b'kz', cur, b'match', b'*', b'count', cnt]])
     for cur in (b'0', b'5', b'99', b'-1', b'x'):
         for opts in bad:
             yield mk + [[b'scan', cur] + opts]
